@@ -16,6 +16,7 @@ Definition quiet (r : dresult) : bool := match r with RNone | RCode _ => true | 
 Section Dispatch.
   Variable PS : Type.
   Variable pdecode : nat -> PS -> PS * outcome.
+  Variable saved : nat -> option code.
   Hypothesis all_tame : forall p ps, tame (snd (pdecode p ps)) = true.
 
   Let R := (PS * dstate * dresult)%type.
@@ -32,19 +33,20 @@ Section Dispatch.
     destruct e; try discriminate Ed; try apply H2; try apply H2'; reflexivity.
   Qed.
 
-  Lemma scan_quiet cfg freq : forall todo ps st, quietR (scan PS pdecode cfg freq ps st todo) = true.
+  Lemma scan_quiet cfg freq : forall todo ps st, quietR (scan PS pdecode saved cfg freq ps st todo) = true.
   Proof.
     induction todo as [|p r IH]; intros ps st; cbn [scan]; [reflexivity|].
     destruct (possible cfg freq p); [|apply IH].
+    destruct (saved p); [reflexivity|].
     apply attempt_quiet; intros; try reflexivity. apply IH.
   Qed.
 
   (* every decoder tame  ==>  the top-level decode returns None or a code, whatever the input, state and configuration *)
   Theorem dispatch_never_raises cfg freq held_match ps st :
-    quietR (dispatch PS pdecode cfg freq held_match ps st) = true.
+    quietR (dispatch PS pdecode saved cfg freq held_match ps st) = true.
   Proof.
     unfold dispatch.
-    assert (forall ps0, quietR (scan PS pdecode cfg freq ps0 st (seq 0 (length cfg))) = true) as Hs by (intros; apply scan_quiet).
+    assert (forall ps0, quietR (scan PS pdecode saved cfg freq ps0 st (seq 0 (length cfg))) = true) as Hs by (intros; apply scan_quiet).
     destruct (last_code st) as [lc|].
     - destruct (possible cfg freq (c_pid lc)).
       + destruct held_match; [reflexivity|]. apply attempt_quiet; intros; try reflexivity. apply Hs.
@@ -56,10 +58,10 @@ Section Dispatch.
 End Dispatch.
 
 (* the converse direction, for one decoder: a leaked exception of the first decoder tried goes straight through *)
-Theorem leak_goes_through PS pdecode cfg freq ps st p r e ps' :
-  possible cfg freq p = true -> pdecode p ps = (ps', OPy e) ->
-  snd (scan PS pdecode cfg freq ps st (p :: r)) = RRaisePy e.
-Proof. intros Hp Hd. cbn [scan]. rewrite Hp. unfold attempt. rewrite Hd. reflexivity. Qed.
+Theorem leak_goes_through PS pdecode saved cfg freq ps st p r e ps' :
+  possible cfg freq p = true -> saved p = None -> pdecode p ps = (ps', OPy e) ->
+  snd (scan PS pdecode saved cfg freq ps st (p :: r)) = RRaisePy e.
+Proof. intros Hp Hs Hd. cbn [scan]. rewrite Hp, Hs. unfold attempt. rewrite Hd. reflexivity. Qed.
 
 (* ------------------------------------------------------------------ the streaming thread *)
 Section Thread.
